@@ -38,6 +38,8 @@ pub struct ExtDoc {
 pub struct FrameDoc {
     pub id: String,
     pub short_name: String,
+    /// a DESC element of the frame (must never become the description of a PDU)
+    pub desc: Option<String>,
     pub byte_length: usize,
     pub pdus: Vec<Inst>,
     pub ext: Option<ExtDoc>,
@@ -77,9 +79,10 @@ pub fn p_doc(d: &[Elem]) -> String {
                 p_insts(&p.signals)
             )),
             Elem::Frame(f) => s.push_str(&format!(
-                "F {} {} {} {} {}",
+                "F {} {} {} {} {} {}",
                 ps(&f.id),
                 ps(&f.short_name),
+                p_opt(&f.desc, |y| ps(y)),
                 f.byte_length,
                 p_insts(&f.pdus),
                 p_opt(&f.ext, |x| format!(
@@ -140,6 +143,9 @@ pub fn render_xml(d: &[Elem]) -> String {
             Elem::Frame(f) => {
                 x.push_str(&format!("<fx:FRAME ID=\"{}\">", esc(&f.id)));
                 x.push_str(&text_elem("ho:SHORT-NAME", &f.short_name));
+                if let Some(d) = &f.desc {
+                    x.push_str(&text_elem("ho:DESC", d));
+                }
                 x.push_str(&text_elem("fx:BYTE-LENGTH", &f.byte_length.to_string()));
                 x.push_str(&text_elem("fx:FRAME-TYPE", "OTHER"));
                 x.push_str("<fx:PDU-INSTANCES>");
@@ -358,6 +364,11 @@ pub fn gen_model(r: &mut Rng) -> Model {
         elems.push(Elem::Frame(FrameDoc {
             id: format!("ID_{}", idn),
             short_name: name(r),
+            desc: match r.below(4) {
+                0 => Some(name(r)),
+                1 => Some(String::new()),
+                _ => None,
+            },
             byte_length: r.below(64) as usize,
             pdus,
             ext,
@@ -712,6 +723,7 @@ fn skip_doc(t: &mut Toks) -> R<()> {
             "F" => {
                 t.bytes()?;
                 t.bytes()?;
+                skip_opt_bytes(t)?;
                 let _: usize = t.num()?;
                 skip_insts(t)?;
                 t.opt(|t| {
